@@ -396,6 +396,27 @@ def permute_page(text: str, rng: random.Random) -> str:
     return text[:content[0]] + body + text[content[1]:]
 
 
+def group_several(text: str, rng: random.Random) -> str:
+    """put several top-level drawings AND labels of the page into ONE <group> (what "Group" does to a selection in the
+    editor): which label belongs to which fragment is still what their positions say"""
+    spans, content = _page_children(text)
+    cand = [i for i, (_, _, tag) in enumerate(spans) if tag in ("fragment", "t")]
+    frs = [i for i in cand if spans[i][2] == "fragment"]
+    if len(frs) < 2:
+        return text
+    chosen = set(rng.sample(frs, rng.randrange(2, min(len(frs), 5) + 1)))
+    chosen |= {i for i in cand if spans[i][2] == "t" and rng.random() < 0.7}
+    order = sorted(chosen)
+    rng.shuffle(order)
+    top = max([int(x) for x in collect_ids(text) if x.isdigit()] + [0]) + 5000
+    group = f'<group id="{top}">' + "".join(text[spans[i][0]:spans[i][1]] for i in order) + "</group>"
+    out, first = text, min(chosen)
+    for i in sorted(chosen, reverse=True):
+        a, b, _ = spans[i]
+        out = out[:a] + (group if i == first else "") + out[b:]
+    return out
+
+
 def insert_lone_atoms(text: str, rng: random.Random) -> str:
     """put fragments WITHOUT bonds (a counter-ion, a single atom) on the page: one in front of the first child of the
     page, one behind the last, possibly one in between.  They stand far away from everything, so no label is theirs and
